@@ -49,6 +49,7 @@ def dag_programs(
     allow_multi: bool = True,
     allow_nullary: bool = True,
     cache: bool = False,
+    consistent_ignored_defaults: bool = False,
 ):
     n_roots = draw(st.integers(1, 4))
     roots = [f"r{i}" for i in range(n_roots)]
@@ -85,7 +86,7 @@ def dag_programs(
                     pf_defaults[p] = root_default[p]
             elif allow_defaults and p not in roots and draw(st.integers(0, 7)) == 0:
                 # a default on a parameter that is fed by an upstream output: must be ignored
-                sig_defaults[p] = f"IGN{f}{p}"
+                sig_defaults[p] = f"IGN{p}" if consistent_ignored_defaults else f"IGN{f}{p}"
             if allow_bound and p not in pf_defaults and draw(st.integers(0, 6)) == 0:
                 bound[p] = f"B{f}{p}"  # (pipefunc documents: a parameter cannot be both bound and in defaults=)
         picker = draw(st.sampled_from(["tuple", "dict"])) if n_out > 1 else None
